@@ -278,3 +278,52 @@ func TestVerifFindingF14(t *testing.T) {
 		})
 	}
 }
+
+// F15 (C02): Info() before Messages() on a file without a usable index silently returned no messages.
+func TestVerifFindingF15(t *testing.T) {
+	buf := &bytes.Buffer{}
+	w, err := NewWriter(buf, &WriterOptions{Chunked: false})
+	if err != nil {
+		t.Fatal(err)
+	}
+	_ = w.WriteHeader(&Header{})
+	_ = w.WriteSchema(&Schema{ID: 1, Name: "s", Encoding: "e"})
+	_ = w.WriteChannel(&Channel{ID: 1, SchemaID: 1, Topic: "/a", MessageEncoding: "x"})
+	for i := 0; i < 5; i++ {
+		if err := w.WriteMessage(&Message{ChannelID: 1, LogTime: uint64(i), Data: []byte{1}}); err != nil {
+			t.Fatal(err)
+		}
+	}
+	if err := w.Close(); err != nil {
+		t.Fatal(err)
+	}
+	count := func(callInfo bool) int {
+		r, err := NewReader(bytes.NewReader(buf.Bytes()))
+		if err != nil {
+			t.Fatal(err)
+		}
+		if callInfo {
+			if _, err := r.Info(); err != nil {
+				t.Fatal(err)
+			}
+		}
+		it, err := r.Messages()
+		if err != nil {
+			t.Fatal(err)
+		}
+		n := 0
+		for {
+			_, _, _, err := it.Next(nil)
+			if errors.Is(err, io.EOF) {
+				return n
+			}
+			if err != nil {
+				t.Fatalf("after %d messages: %v", n, err)
+			}
+			n++
+		}
+	}
+	if a, b := count(false), count(true); a != 5 || b != 5 {
+		t.Fatalf("messages without a prior Info(): %d, after Info(): %d; want 5 and 5", a, b)
+	}
+}
